@@ -186,13 +186,17 @@ def check(ctx):
     if ctx.quick:
         plan = [("bfs2", ["-mode", "bfs", "-depth", 2, "-level", 2, "-seed", ctx.seed], shards),
                 ("bfs3", ["-mode", "bfs", "-depth", 3, "-level", 1, "-seed", ctx.seed + 1], shards),
-                ("sim", ["-mode", "sim", "-count", 400, "-seed", ctx.seed], 4)]
+                ("sim", ["-mode", "sim", "-count", 400, "-seed", ctx.seed], 4),
+                ("long", ["-mode", "long", "-level", 1, "-seed", ctx.seed], 4)]
     else:
         plan = [("bfs2", ["-mode", "bfs", "-depth", 2, "-level", 2, "-seed", ctx.seed], shards),
                 ("bfs3", ["-mode", "bfs", "-depth", 3, "-level", 1, "-seed", ctx.seed + 1], shards),
                 ("bfs3b", ["-mode", "bfs", "-depth", 3, "-level", 1, "-seed", ctx.seed + 2], shards),
                 ("bfs3full", ["-mode", "bfs", "-depth", 3, "-level", 2, "-seed", ctx.seed + 3], shards),
-                ("sim", ["-mode", "sim", "-count", 6000, "-seed", ctx.seed], shards)]
+                ("sim", ["-mode", "sim", "-count", 6000, "-seed", ctx.seed], shards),
+                ("long", ["-mode", "long", "-level", 1, "-seed", ctx.seed], 4),
+                ("long2", ["-mode", "long", "-level", 2, "-seed", ctx.seed], 13),
+                ("long3", ["-mode", "long", "-level", 3, "-seed", ctx.seed], 4)]
     for name, args, sh in plan:
         t = sharded(ctx, name, args, sh)
         runner.run_job(ctx, _job(ctx, name, t))
@@ -213,7 +217,8 @@ def check(ctx):
         rule="every message sequence of length 2 (full alphabet) and 3 (reduced alphabet) over (client, IA_PD list) letters whose hints are "
              "nil / ::/len / exactly-own / own-address-other-length / another client's prefix / free block (=, longer, inside) / outside / length>128, "
              "hint kinds resolved against what the client was told so far, on 4..16-block pools (page 48/60/64/72/128), direct and through 1-3 relay layers, "
-             "plus seeded long histories running into exhaustion and the replays of the repaired defects; "
+             "plus seeded long histories running into exhaustion, long-running instances (a holder asking again after a neighbour renewed exactly g times, "
+             "g swept over 1..16 and 250..262 - thorough: 1..300, 500..520 and 65534..65537 - and 300 distinct clients on one 512-block pool) and the replays of the repaired defects; "
              "distinct_nontrivial = " + ("NoPrefixAvail answers + answers with several prefixes" if prop == "C08" else "exact renewals + hint-less IA_PDs of clients that hold a prefix"),
         extra_cov=st, distinct_nontrivial=nontriv, exhaustive=False)
 
